@@ -110,6 +110,12 @@ def check_cassette(ctx, case):
         s.get('lookup') for s in script) else 'no-lookup') + tuple('read:' + s['read'] for s in script))
 
 
+def same_value(a, b):
+    if V.has_vector(a) or V.has_vector(b):
+        return V.deep_same(a, b)
+    return not a != b
+
+
 def mutating_variant(prog):
     """Replayed code that mutates every value it is handed (mutate_last after each call)."""
     p = copy.deepcopy(prog)
@@ -134,6 +140,17 @@ def check_replay(ctx, case):
         if s_['t'] == 'in' and s_['beh'] == 'raise':
             doubled.append(copy.deepcopy(s_))
     prog['steps'] = doubled
+    odd = case.get('odd_eq')
+    if odd:
+        # one input returns a value that cannot be compared with == (array-like: comparisons have no truth value;
+        # plain object: identity equality), bare or inside a container; the harness compares it with V.deep_same
+        rets = [s_ for s_ in prog['steps'] if s_['t'] == 'in' and s_['beh'] == 'ret']
+        if rets:
+            inner = {'t': odd['type'], 'v': [1, 2, 3]}
+            shape = {'bare': inner, 'list': [0, inner], 'dict': {'t': 'dict', 'v': [['k', inner], ['n', 1]]},
+                     'tuple': {'t': 'tuple', 'v': [inner, 'x']}}[odd['shape']]
+            # (calls with the same key are given one behaviour by normalise_inputs below: the first one's)
+            rets[odd['at'] % len(rets)]['ret'] = shape
     prog = PS.assign_sids(PS.normalise_inputs(prog))
     copy_on = case.get('copy_on')
     live_prog = prog
@@ -214,7 +231,7 @@ def check_replay(ctx, case):
                 osid = smap[sid] if smap else sid
                 w = want[osid]
                 if w[0] == 'v':
-                    if obs[0] != 'v' or obs[2] != w[1]:
+                    if obs[0] != 'v' or not same_value(obs[2], w[1]):
                         raise Violation('replay #%d: call %s was handed %r, recorded value was %r (earlier replays '
                                         'mutated what they were handed%s)' % (
                                             round_ + 1, osid, obs[2], w[1],
@@ -226,7 +243,7 @@ def check_replay(ctx, case):
             ro = norm(outputs_map(pb.recorded_outputs, 'recorded_outputs'))
             if first_ro is None:
                 first_ro = copy.deepcopy(ro)
-            elif ro != first_ro:
+            elif not same_value(ro, first_ro):
                 raise Violation('Playback.recorded_outputs changed between replays: first %r, now %r' % (first_ro, ro),
                                 'recorded-outputs')
             # mutate everything reachable from the Playback that was handed out
@@ -238,7 +255,7 @@ def check_replay(ctx, case):
                         V.mutate_in_place(a, round_)
             for o in pb.recorded_outputs:
                 again = pb.original_recording.get_data(o.key)
-                if norm({o.key: again}) != norm({o.key: pristine[o.key]}):
+                if not same_value(norm({o.key: again}), norm({o.key: pristine[o.key]})):
                     raise Violation('mutating Playback.recorded_outputs changed what the recording returns under %r: '
                                     '%r, was %r' % (o.key, again, pristine[o.key]), 'recorded-outputs')
             if p is mut:
@@ -248,6 +265,7 @@ def check_replay(ctx, case):
             PS.forget_class(c)
         z.__exit__(None, None, None)
     ctx.case(case, changed > 0, classes=('replay', 'cassette:' + case['cassette'], 'copy-on' if copy_on else 'copy-off') + (
+        ('odd-equality:%s' % case['odd_eq']['type'],) if case.get('odd_eq') else ()) + (
         ('copy-on:params=%s' % sorted((case.get('copy_params') or {}).get('params', {}).items()),) if copy_on else ()))
 
 
@@ -273,9 +291,18 @@ def replay_cases():
     # one value family per program (objects-without-aliasing / aliasing-without-list-state), see DESIGN.md 2.2
     fam_a = st.one_of(V.small_values, V.values.filter(lambda d: V.is_mutable(V.build(d))))
     fam_b = V.aliasing_values()
-    progs = st.one_of(*[PS.programs(values=vals, max_steps=6, threads=False, in_behs=('ret', 'ret', 'ret', 'raise'),
-                                    out_behs=('ret', 'ret', 'raise'), endings=('return',)) for vals in (fam_a, fam_a, fam_b)])
-    return st.fixed_dictionaries({'kind': st.just('replay'), 'prog': progs,
+    def progs(vals):
+        return PS.programs(values=vals, max_steps=6, threads=False, in_behs=('ret', 'ret', 'ret', 'raise'),
+                           out_behs=('ret', 'ret', 'raise'), endings=('return',))
+
+    # values that cannot be compared with == only join family A: an instance holding a list next to aliased values is
+    # outside the serializer's faithful domain (DESIGN.md 2.2)
+    odd = st.one_of(st.none(), st.fixed_dictionaries({
+        'type': st.sampled_from(['vector', 'opaque']), 'at': st.integers(0, 5),
+        'shape': st.sampled_from(['bare', 'list', 'dict', 'tuple'])}))
+    prog_and_odd = st.one_of(st.tuples(progs(fam_a), odd), st.tuples(progs(fam_a), odd),
+                             st.tuples(progs(fam_b), st.none()))
+    return st.fixed_dictionaries({'kind': st.just('replay'), 'prog_odd': prog_and_odd,
                                   'cassette': st.sampled_from(['memory', 'memory', 'file', 's3', 'async']),
                                   'copy_on': st.booleans(),
                                   'copy_params': st.sampled_from([
@@ -283,7 +310,13 @@ def replay_cases():
                                       {'params': {'sampling_rate': 0}, 'force_first': False},
                                       {'params': {'sampling_rate': 0.5}, 'force_first': True},
                                       {'params': {'sampling_rate': 2}},
-                                      {'params': {'ignore_enforced_sampling': True}}])})
+                                      {'params': {'ignore_enforced_sampling': True}}])}).map(_split_prog_odd)
+
+
+def _split_prog_odd(case):
+    case = dict(case)
+    case['prog'], case['odd_eq'] = case.pop('prog_odd')
+    return case
 
 
 def replay(ctx, case):
